@@ -364,6 +364,9 @@ func (flogs *fileLogs) getWriteLog(topic string) (fl *fileLog, err error) {
 	flogs.RUnlock()
 	if !found {
 		filename := filepath.Join(flogs.path, topic)
+		if err = truncateTornTail(filename); err != nil {
+			return
+		}
 		var f *os.File
 		f, err = os.OpenFile(filename, os.O_WRONLY|os.O_CREATE|os.O_APPEND|os.O_SYNC, 0755)
 		if err != nil {
@@ -375,6 +378,42 @@ func (flogs *fileLogs) getWriteLog(topic string) (fl *fileLog, err error) {
 		flogs.Unlock()
 	}
 	return
+}
+
+// truncateTornTail removes an incompletely written record (left by a crash in the middle
+// of an append) from the end of a log file, so records appended from now on are not
+// swallowed by, or misframed after, the torn one.
+func truncateTornTail(filename string) error {
+	f, err := os.OpenFile(filename, os.O_RDWR, 0755)
+	if err != nil {
+		if os.IsNotExist(err) {
+			return nil
+		}
+		return err
+	}
+	defer f.Close()
+	fi, err := f.Stat()
+	if err != nil {
+		return err
+	}
+	size := fi.Size()
+	var pos int64
+	hdr := make([]byte, 6)
+	for pos+6 <= size {
+		if _, err := f.ReadAt(hdr, pos); err != nil {
+			return err
+		}
+		next := pos + 6 + int64(binary.LittleEndian.Uint32(hdr[2:6]))
+		if next > size {
+			break
+		}
+		pos = next
+	}
+	if pos < size {
+		dvid.Criticalf("filelog %q ends with an incomplete record: truncating from %d to %d bytes\n", filename, size, pos)
+		return f.Truncate(pos)
+	}
+	return nil
 }
 
 func (flogs *fileLogs) closeWriteLog(topic string) error {
